@@ -106,18 +106,11 @@ theorem throttling_valid_iff (maxTokens ratio : ℚ) :
     decide_eq_false_iff_not, not_le, not_lt]
   tauto
 
-/- Full statement (false of the unchanged code): every retryThrottling the parser accepts satisfies
-   the range check.  `parseServiceConfig` returns early when there is no methodConfig, so: -/
-theorem throttling_validation_partial (maxTokens ratio : ℚ) :
-    acceptsThrottling true maxTokens ratio = validThrottling maxTokens ratio := by
-  simp [acceptsThrottling]
-
-theorem throttling_validation_counterexample :
-    ¬ (∀ hasMC maxTokens ratio, acceptsThrottling hasMC maxTokens ratio = true → validThrottling maxTokens ratio = true) := by
-  intro h
-  have := h false (-1) (1 / 10) (by simp [acceptsThrottling])
-  rw [throttling_valid_iff] at this
-  norm_num at this
+/-- Every retryThrottling the parser accepts satisfies the range check, with or without a
+    `methodConfig` member.  (Before /repo e52eadc the check was skipped for configs without a
+    `methodConfig`: finding F32, then proved here as `throttling_validation_counterexample`.) -/
+theorem throttling_validation (hasMC : Bool) (maxTokens ratio : ℚ) :
+    acceptsThrottling hasMC maxTokens ratio = validThrottling maxTokens ratio := rfl
 
 /-! ### delay before a retry -/
 
@@ -157,12 +150,13 @@ theorem parse_pushback_spec (sps : List (List UInt8)) :
             · rintro ⟨x, hx, hm, _⟩; subst hx; rw [hv] at hm; injection hm
       | cons w rest => simp [parsePushback]
 
-/- Full statement (false of the unchanged code): whenever a pushback was given the delay is that
-   many milliseconds.  Proved under the side condition that ms·10^6 fits int64; see the counterexample. -/
-theorem pushback_is_delay_partial (dis : Bool) (pol : Option Policy) (cs : CS) (a : Attempt) (r : ℚ) (dur : Int)
+/-- Whenever a pushback was given the delay is that many milliseconds — saturated at MaxInt64 ns,
+    the largest time.Duration, for pushbacks above ~292 years.  (Before /repo dab5ad1 the int64
+    product wrapped: finding F15p, then proved here as `pushback_overflow_counterexample`.) -/
+theorem pushback_is_delay (dis : Bool) (pol : Option Policy) (cs : CS) (a : Attempt) (r : ℚ) (dur : Int)
     (h : (shouldRetry dis pol cs a r).2 = .backoff dur true) :
-    ∃ v n, a.hasStream = true ∧ a.pushback = [v] ∧ atoi v = some n ∧ 0 ≤ n ∧ dur = pushbackDur n ∧
-      (1000000 * n ≤ maxInt64 → dur = 1000000 * n) := by
+    ∃ v n, a.hasStream = true ∧ a.pushback = [v] ∧ atoi v = some n ∧ 0 ≤ n ∧
+      dur = min (1000000 * n) maxInt64 ∧ 0 ≤ dur := by
   cases hs : stage dis pol cs a with
   | early =>
     rw [shouldRetry_staged] at h; unfold stagedResult at h; rw [hs] at h
@@ -185,19 +179,10 @@ theorem pushback_is_delay_partial (dis : Bool) (pol : Option Policy) (cs : CS) (
         | true =>
           rw [hst] at hpb; simp only [if_true] at hpb
           obtain ⟨v, hv, hat, hn⟩ := ((parse_pushback_spec a.pushback).2 n).mp hpb.symm
-          refine ⟨v, n, rfl, hv, hat, hn, h.symm, ?_⟩
-          intro hfit
-          rw [← h]
-          unfold pushbackDur wrap64
-          unfold maxInt64 at hfit
-          omega
-
-theorem pushback_overflow_counterexample :
-    ¬ (∀ n : Int, 0 ≤ n → pushbackDur n = 1000000 * n) := by
-  intro h
-  have := h 9223372036855 (by norm_num)
-  unfold pushbackDur wrap64 at this
-  omega
+          have hspec := pushbackDur_spec n hn
+          refine ⟨v, n, rfl, hv, hat, hn, by rw [← h, hspec], ?_⟩
+          rw [← h, hspec]
+          exact le_min (by omega) (by unfold maxInt64; omega)
 
 /-- A retry that honours a pushback resets the backoff exponent. -/
 theorem pushback_resets_k (dis : Bool) (pol : Option Policy) (cs : CS) (a : Attempt) (r : ℚ) (dur : Int)
@@ -205,18 +190,18 @@ theorem pushback_resets_k (dis : Bool) (pol : Option Policy) (cs : CS) (a : Atte
     (shouldRetry dis pol cs a r).1.sincePushback = 0 := by
   rw [sr_sincePushback, h]; rfl
 
-/- Full statement (false of the unchanged code): without pushback the delay lies in
-   [0.8, 1.2] × min(initialBackoff × multiplier^k, maxBackoff) for every policy the parser admits.
-   Proved under the side condition 1.2 × base < 2^63 ns (durations are integer ns: the delay is
-   ⌊base × (0.8 + 0.4 r)⌋, hence > 0.8·base − 1, ≥ ⌊0.8·base⌋ and ≤ 1.2·base); see the counterexample. -/
-theorem backoff_in_band_partial (dis : Bool) (pol : Option Policy) (cs : CS) (a : Attempt) (r : ℚ) (dur : Int)
+/-- Without pushback the delay lies in [0.8, 1.2] × min(initialBackoff × multiplier^k, maxBackoff), for
+    every policy (base ≥ 0) and every jitter draw: durations are integer ns, so the delay is
+    ⌊base × (0.8 + 0.4 r)⌋ capped at MaxInt64 — at least ⌊0.8·base⌋ (or MaxInt64 if that is smaller),
+    at most 1.2·base, never negative.  (Before /repo 0ecebdc `int64(cur)` wrapped to MinInt64 when
+    1.2·base ≥ 2^63: finding F15, then proved here as `backoff_overflow_counterexample`.) -/
+theorem backoff_in_band (dis : Bool) (pol : Option Policy) (cs : CS) (a : Attempt) (r : ℚ) (dur : Int)
     (h : (shouldRetry dis pol cs a r).2 = .backoff dur false) (hr0 : 0 ≤ r) (hr1 : r < 1) :
     ∃ rp, pol = some rp ∧ dur = backoffDur rp cs.sincePushback r ∧
       (shouldRetry dis pol cs a r).1.sincePushback = cs.sincePushback + 1 ∧
-      (0 ≤ backoffBase rp cs.sincePushback → 6 / 5 * backoffBase rp cs.sincePushback < 9223372036854775808 →
-        (4 / 5 * backoffBase rp cs.sincePushback - 1 < (dur : ℚ) ∧
-         ⌊4 / 5 * backoffBase rp cs.sincePushback⌋ ≤ dur ∧
-         (dur : ℚ) ≤ 6 / 5 * backoffBase rp cs.sincePushback)) := by
+      (0 ≤ backoffBase rp cs.sincePushback →
+        (min ⌊4 / 5 * backoffBase rp cs.sincePushback⌋ maxInt64 ≤ dur ∧
+         (dur : ℚ) ≤ 6 / 5 * backoffBase rp cs.sincePushback ∧ 0 ≤ dur ∧ dur ≤ maxInt64)) := by
   have hk := sr_sincePushback dis pol cs a r
   rw [h] at hk
   cases hs : stage dis pol cs a with
@@ -229,33 +214,38 @@ theorem backoff_in_band_partial (dis : Bool) (pol : Option Policy) (cs : CS) (a 
     obtain ⟨rp, hp, heq⟩ := sr_charged_decision dis pol cs a r pb hs
     rw [heq] at h
     unfold chargedResult at h
-    refine ⟨rp, hp, ?_, hk, ?_⟩
-    · split_ifs at h
+    have hd : dur = backoffDur rp cs.sincePushback r := by
+      split_ifs at h
       cases pb <;> simp at h <;> exact h.symm
-    · intro hb hfit
-      have hd : dur = backoffDur rp cs.sincePushback r := by
-        split_ifs at h
-        cases pb <;> simp at h <;> exact h.symm
-      rw [hd]
-      have := backoff_band (backoffBase rp cs.sincePushback) r hb hr0 hr1 hfit
-      exact ⟨this.1, this.2.2, this.2.1⟩
+    refine ⟨rp, hp, hd, hk, ?_⟩
+    intro hb
+    rw [hd]
+    exact backoffDur_band rp cs.sincePushback r hb hr0 hr1
 
-/-- A policy inside the parser's limits (the parser clamps "9000000000s" to MaxInt64 ns) and a
-    jitter draw for which the computed delay is negative, i.e. the timer fires at once. -/
-theorem backoff_overflow_counterexample :
-    ¬ (∀ (rp : Policy) (k : Nat) (r : ℚ), 0 < rp.initialBackoff → 0 < rp.maxBackoff → 0 < rp.multiplier →
-        rp.initialBackoff ≤ maxInt64 → rp.maxBackoff ≤ maxInt64 → 0 ≤ r → r < 1 →
-        ⌊4 / 5 * backoffBase rp k⌋ ≤ backoffDur rp k r) := by
-  intro h
-  have := h ⟨5, 9223372036854775807, 9223372036854775807, 1, [14]⟩ 0 (3 / 4)
-    (by norm_num) (by norm_num) (by norm_num) (by norm_num [maxInt64]) (by norm_num [maxInt64]) (by norm_num) (by norm_num)
-  have hbase : backoffBase ⟨5, 9223372036854775807, 9223372036854775807, 1, [14]⟩ 0 = 9223372036854775807 := by
-    simp [backoffBase]
-  rw [backoffDur, hbase] at this
-  rw [toInt64_overflow _ (by norm_num [jittered])] at this
-  have hfl : ⌊(4:ℚ) / 5 * 9223372036854775807⌋ ≥ 0 := Int.floor_nonneg.mpr (by norm_num)
-  unfold minInt64 at this
-  omega
+/-- Inside the parser's limits (0 < initialBackoff, maxBackoff ≤ MaxInt64 ns, multiplier > 0) the cap
+    never cuts the lower edge: ⌊0.8·base⌋ ≤ delay ≤ 1.2·base. -/
+theorem backoff_in_band_parser_limits (rp : Policy) (k : Nat) (r : ℚ)
+    (hi : 0 < rp.initialBackoff) (hm : 0 < rp.maxBackoff) (hmu : 0 < rp.multiplier) (hmax : rp.maxBackoff ≤ maxInt64)
+    (hr0 : 0 ≤ r) (hr1 : r < 1) :
+    ⌊4 / 5 * backoffBase rp k⌋ ≤ backoffDur rp k r ∧ (backoffDur rp k r : ℚ) ≤ 6 / 5 * backoffBase rp k := by
+  have hb : 0 ≤ backoffBase rp k := by
+    unfold backoffBase
+    apply le_min
+    · have : (0 : ℚ) < rp.initialBackoff := by exact_mod_cast hi
+      positivity
+    · exact_mod_cast le_of_lt hm
+  have hle : backoffBase rp k ≤ (maxInt64 : ℤ) := by
+    unfold backoffBase
+    exact le_trans (min_le_right _ _) (by exact_mod_cast hmax)
+  obtain ⟨h1, h2, _, _⟩ := backoffDur_band rp k r hb hr0 hr1
+  refine ⟨?_, h2⟩
+  have hfl : ⌊4 / 5 * backoffBase rp k⌋ ≤ maxInt64 := by
+    have : 4 / 5 * backoffBase rp k ≤ ((maxInt64 : ℤ) : ℚ) := by
+      have h5 : 4 / 5 * backoffBase rp k ≤ backoffBase rp k := by linarith
+      exact le_trans h5 hle
+    exact_mod_cast le_trans (Int.floor_le (4 / 5 * backoffBase rp k)) this
+  rw [min_eq_left hfl] at h1
+  exact h1
 
 /-- Over every history of failed attempts of one RPC (any attempts, any jitter draws) the exponent
     the code keeps (`numRetriesSincePushback`) is the number of timed retries since the last
@@ -307,6 +297,7 @@ example : parseDuration [115] = none := by decide
 example : parsePushback [[49, 50, 51]] = .ms 123 := by decide
 example : parsePushback [[45, 49]] = .abort := by decide
 example : parsePushback [[49], [50]] = .abort := by decide
-example : pushbackDur 9223372036855 < 0 := by decide
+example : pushbackDur 9223372036855 = maxInt64 := by decide
+example : pushbackDur 9223372036854 = 9223372036854000000 := by decide
 
 end GrpcProofs.C19
